@@ -134,7 +134,7 @@ int main(int argc, char **argv) {
   c.level = "model_checking";
   int maxLen = th ? 8 : 7, maxDepth = th ? 5 : 4;
   c.rule =
-      "every history of push(w,t) on RowLegalizer(b,e): b in {0,5}, length 1.." + std::to_string(maxLen) +
+      "every history of push(w,t) on RowLegalizer(b,e): b in {0,5,-4}, length 1.." + std::to_string(maxLen) +
       ", w in {1,2,3} fitting, t in [b-3,e+3], up to " + std::to_string(maxDepth) +
       " pushes, every candidate queried twice with getCost before each push; three coordinate variants (plain, shifted to ~2^22, "
       "scaled by 2^19, depth 3); a state is one history, non-trivial = history with >= 2 cells; oracle = brute-force DP";
@@ -142,7 +142,7 @@ int main(int argc, char **argv) {
   c.assumptions = {"RowLegalizer is copyable (copy = same state); the DP reference enumerates integer positions only (data are integers)"};
   c.enumerate = [=](const std::function<void(const Inst &)> &f) {
     for (int variant = 0; variant < 3; ++variant)
-      for (int b : {0, 5})
+      for (int b : {0, 5, -4})
         for (int len = 1; len <= maxLen; ++len)
           for (int w = 1; w <= 3 && w <= len; ++w)
             for (int t = b - 3; t <= b + len + 3; ++t) {
